@@ -272,8 +272,13 @@ pub fn explore(opts: &Opts) -> Explored {
         }
         for m in 1u32..(1 << nl) {
             let mask: Vec<bool> = (0..nl).map(|k| m & (1 << k) != 0).collect();
-            for seed in &seeds {
-                let passes = vec![Pass { root, seed: seed.clone() }];
+            // one pass per seed; and, where an operand is left untracked, the operation built once and
+            // differentiated twice (what a pass does to its operands' flags must not change the next one)
+            let mut plans: Vec<Vec<Pass>> = seeds.iter().map(|seed| vec![Pass { root, seed: seed.clone() }]).collect();
+            if nl >= 2 && m != (1 << nl) - 1 {
+                plans.push(vec![Pass { root, seed: None }, Pass { root, seed: seeds[1].clone() }]);
+            }
+            for passes in plans {
                 let case = || {
                     format!(
                         "{} vals={:?} mask={:?} {}",
